@@ -152,6 +152,28 @@ def run(F, rep):
                 rep.ob("C17-R3", "process::exit in %s uses a non-zero status" % f.key, code[0] == "const" and code != ("const", 0),
                        site=site_of(f, t), key="C17-R3 | %s | exit status" % f.key)
 
+    # ------------------------------------------------------------ R6: an output file is opened empty
+    # `-o FILE` must end up holding exactly the requested records: opening an existing file for writing without
+    # truncating it (or appending) leaves the tail of an earlier, longer extraction in place.
+    nopen = 0
+    for f in F.funcs.values():
+        if f.crate not in ("ragc", "ragc_core") or f.kind == "promoted" or "::ffi::" in f.key:
+            continue
+        exf = None
+        for bi, t in f.calls():
+            if t.get("indirect") or not t["callee"].endswith("fs::OpenOptions::open"):
+                continue
+            exf = exf or Exprs(f)
+            chain = fmt(exf.operand(t["args"][0]))
+            nopen += 1
+            writes = re.search(r"OpenOptions::(write|create)\(.*?, 1\)", chain) is not None or "OpenOptions::write" in chain
+            safe = re.search(r"OpenOptions::(truncate|create_new|append)\(", chain) is not None
+            if not writes:
+                continue
+            rep.ob("C17-R6", "a file opened for writing in %s starts empty (truncate / create_new) or is explicitly appended to" % _short(f.key), safe,
+                   detail="builder chain: %s" % chain[:200], site=site_of(f, t), key="C17-R6 | %s | open for writing" % f.key)
+    rep.stat("openoptions_sites", nopen)
+
     # ------------------------------------------------------------ R4 / R5
     gs = F.funcs.get("ragc::getset_command")
     if rep.floor("C17-R4", 1 if gs else 0, 1, "getset_command"):
